@@ -95,7 +95,11 @@ theorem push_not_plain (ext : Ext) : ∀ (x : SVal) (b : B) (msg : String), push
   | .f64 _, b, msg => by unfold push; exact ctx_not_plain _ (ann_ne_nil _) _ _
   | .char _, b, msg => by unfold push; exact ctx_not_plain _ (ann_ne_nil _) _ _
   | .str _, b, msg => by unfold push; exact ctx_not_plain _ (ann_ne_nil _) _ _
-  | .unitStruct _, b, msg => by unfold push; exact ctx_not_plain _ (ann_ne_nil _) _ _
+  | .unitStruct _, b, msg => by
+    unfold push
+    split
+    · exact ctx_not_plain _ (ann_ne_nil _) _ _
+    · exact pushNone_not_plain b msg
 
 /-- a scalar that the column cannot take is blamed on exactly that column: path and label of the leaf -/
 theorem leaf_error_names_leaf (ext : Ext) (p : String) (k : LeafKind) (v : Validity) (vals : List Int)
